@@ -365,6 +365,9 @@ def run(ctx):
                 for t in n.targets:
                     if isinstance(t, ast.Subscript) and norm(t.value) == 'globals()':
                         ns_writes.append((fn, n, 'store'))
+            if isinstance(n, ast.Call) and isinstance(n.func, ast.Attribute) and norm(n.func.value) == 'globals()' \
+                    and n.func.attr in ('pop', '__delitem__', 'popitem', 'clear'):
+                ns_writes.append((fn, n, 'pop'))
     ctx.count('shared-namespace writes', len(ns_writes))
     ctx.floor('shared-namespace writes', len(ns_writes), 2)
     for fn, n, kind in ns_writes:
@@ -391,6 +394,19 @@ def run(ctx):
                               'evicting one cached filter deletes the function of another, still cached, filter',
                               'deletion from the shared namespace is not keyed by the wrapper\'s own name', file=F,
                               line=n.lineno, engine='E11')
+        elif kind == 'pop':
+            key = norm(n.args[0]) if n.args else ''
+            ok = in_wrapper and fn.name == '__del__' and key == '%s.fun_name' % fn.args.args[0].arg
+            if ok:
+                ctx.ob('C13.D2', 'a generated name is removed only by its own wrapper (globals().pop(self.fun_name, ...))', True,
+                       '%s:%d' % (F, n.lineno))
+            else:
+                ctx.violation('C13.D2', '%s::%s' % (F, fn.name), norm(n),
+                              'history: keep one filter in regular use while 500 other filters are compiled: `%s` removes the '
+                              'generated function of a filter by AGE (creation order), the cache keeps filters by USE -- the hot '
+                              'filter is still cached, its function is gone, and every later use raises KeyError' % norm(n)[:70],
+                              'a generated function is removed from the shared namespace by something else than the finaliser of '
+                              'its own wrapper', file=F, line=n.lineno, engine='E11')
         else:
             ctx.error('C13.D2', 'unexpected store into globals(): %s' % norm(n))
     init = wrap.get('__init__')
@@ -438,8 +454,26 @@ def run(ctx):
         ff = m.func(MOD, 'filter_function')
         rets = [norm(n.value) for n in walk_no_nested(ff) if isinstance(n, ast.Return)]
         p = ff.args.args[0].arg
-        if rets == ['_filter_function(%s).get()' % p]:
+        # plain aliases of the parameter (`text = filter`) are the parameter
+        aliases = {p}
+        for a_ in walk_no_nested(ff):
+            if isinstance(a_, ast.Assign) and len(a_.targets) == 1 and isinstance(a_.targets[0], ast.Name) \
+                    and isinstance(a_.value, ast.Name) and a_.value.id in aliases:
+                aliases.add(a_.targets[0].id)
+        import re as _re
+        shape = _re.match(r'^_filter_function\((.+)\)\.get\(\)$', rets[0]) if len(rets) == 1 else None
+        if shape and shape.group(1) in aliases:
             ctx.ob('C13.D3', 'filter_function(text) = _filter_function(text).get()', True, '%s:%d' % (F, ff.lineno))
+        elif shape and any(tok in shape.group(1) for tok in ('.strip(', '.lower(', '.upper(', '.split(', '.replace(', '[:', ':]',
+                                                             '.casefold(', '.join(')):
+            ctx.violation('C13.D3', '%s::filter_function' % F, rets[0],
+                          'two different filter texts that agree under `%s` share one cache entry: the second is evaluated with '
+                          'the function compiled for the first' % shape.group(1)[:60],
+                          'the cache key is a many-to-one transform of the filter text', file=F, line=ff.lineno, engine='E11')
+        elif shape:
+            # the argument is some other expression of the text: C11.D8 (text chain) judges rewrites; here: cannot decide
+            ctx.error('C13.D3', 'filter_function passes `%s` to the cached compiler; whether that is the filter text is decided '
+                                'by the text-chain rule (C11.D8)' % shape.group(1)[:60])
         else:
             ctx.violation('C13.D3', '%s::filter_function' % F, '; '.join(rets),
                           'the function returned is not the one compiled for this filter text',
